@@ -146,6 +146,15 @@ impl SmtpConnection {
             #[cfg(any(feature = "native-tls", feature = "rustls", feature = "boring-tls"))]
             {
                 try_smtp!(self.command(Starttls), self);
+                // Whatever arrived together with the reply was sent in clear: taking
+                // it for the first replies of the encrypted session would let an
+                // attacker in the middle answer for the server (STARTTLS injection)
+                if !self.stream.buffer().is_empty() {
+                    self.abort();
+                    return Err(error::response(
+                        "unexpected data after the reply to STARTTLS",
+                    ));
+                }
                 self.stream.get_mut().upgrade_tls(tls_parameters)?;
                 #[cfg(feature = "tracing")]
                 tracing::debug!("connection encrypted");
